@@ -51,18 +51,22 @@ impl CssStmt {
         }
     }
 
-    pub fn is_invisible(&self) -> bool {
+    /// In compressed output a comment that is not preserved (`/*! … */`) is not written, so
+    /// a rule that contains nothing else is invisible as well.
+    pub fn is_invisible(&self, is_compressed: bool) -> bool {
+        let all_invisible =
+            |body: &[CssStmt]| body.iter().all(|stmt| stmt.is_invisible(is_compressed));
+
         match self {
             CssStmt::RuleSet { selector, body, .. } => {
-                selector.is_invisible() || body.iter().all(CssStmt::is_invisible)
+                selector.is_invisible() || all_invisible(body)
             }
             CssStmt::Style(style) => style.value.node.is_blank(),
-            CssStmt::Media(media_rule, ..) => media_rule.body.iter().all(CssStmt::is_invisible),
-            CssStmt::UnknownAtRule(..) | CssStmt::Import(..) | CssStmt::Comment(..) => false,
-            CssStmt::Supports(supports_rule, ..) => {
-                supports_rule.body.iter().all(CssStmt::is_invisible)
-            }
-            CssStmt::KeyframesRuleSet(kf) => kf.body.iter().all(CssStmt::is_invisible),
+            CssStmt::Media(media_rule, ..) => all_invisible(&media_rule.body),
+            CssStmt::UnknownAtRule(..) | CssStmt::Import(..) => false,
+            CssStmt::Comment(comment, ..) => is_compressed && !comment.starts_with("/*!"),
+            CssStmt::Supports(supports_rule, ..) => all_invisible(&supports_rule.body),
+            CssStmt::KeyframesRuleSet(kf) => all_invisible(&kf.body),
         }
     }
 
